@@ -165,6 +165,19 @@ def run(h, case):
     r1 = call()
     r2 = call()
     h.prove(same(h, r1, r2), 'a second call returns the identical result')
+    # history: the same function on another curve in between must not change what the first call returns
+    if case['fn'] not in ('rdp.plot_frame', 'evaluation.compute_global_segment_cost'):
+        Y2 = [y + 1 + (i % 2) for i, y in enumerate(Y)]
+        pts2 = h.array([[a, b] for a, b in zip(X, Y2)])
+        call2, _ = _calls(h.L, h, pts2, X, Y2, n, t)[case['fn']]
+        try:
+            call2()
+        except core.PathAbort:
+            raise
+        except Exception:
+            pass          # the intervening call is only there for its side effects
+        r3 = call()
+        h.prove(same(h, r1, r3), 'the result does not depend on calls made before (no state kept between calls)')
     h.prove(not h.writes(), 'array arguments are left unmodified')
     for w, before in watched:
         h.prove(len(w) == len(before) and all((a is b) or bool(same(h, a, b)) for a, b in zip(w, before)), 'list arguments are left unmodified')
